@@ -418,6 +418,7 @@ func runC08(env *core.Env) {
 			samples.add(map[string]interface{}{"config": c.String(), "ready": keys(wantReady)})
 		}
 	})
+	orderCov := c08ClaimOrder(env)
 	three := c08ThreeEpics(env, classes)
 	// cross-validation of the synthesised logs: build a subset through the real CLI and compare flags
 	xv := c08CrossValidate(env, cfgs)
@@ -425,7 +426,8 @@ func runC08(env *core.Env) {
 	env.Finish("model_checking", map[string]interface{}{
 		"states": evals, "transitions": claims + evals, "traces_validated_against_impl": validated,
 		"samples": samples.list, "exhaustive": int(done) == len(cfgs), "configurations": len(cfgs), "configurations_checked": done,
-		"claim_calls": claims, "claims_under_held_lock": busyClaims, "configs_with_mixed_ready_sets": nontrivial, "distinct_flag_classes": classes.len(), "flag_classes": classes.snapshot(),
+		"claim_order_vs_id_order": orderCov,
+		"claim_calls":             claims, "claims_under_held_lock": busyClaims, "configs_with_mixed_ready_sets": nontrivial, "distinct_flag_classes": classes.len(), "flag_classes": classes.snapshot(),
 		"cli_built_cross_validated": xv, "three_epic_configurations": three, "unconfirmed_candidates": unconfirmed.Load(),
 		"history_variants": "each <=2-task configuration (thorough: every configuration) also reached via re-assignment from another epic, link+unlink noise on every non-edge, done->todo reopen, claim/unclaim churn, create events in reverse log order",
 		"bound":            "all stores with <=2 tasks (9 state/claim/pruned options x 3 memberships each, all acyclic dependency relations, 3 epic-dependency options, E2 optionally pruned) and 3 tasks (quick: 4 options x {root,E1}; thorough: 9 options x 3 memberships)",
@@ -627,4 +629,95 @@ func c08ThreeEpics(env *core.Env, classes *counter) int {
 		}
 	})
 	return int(n)
+}
+
+// c08ClaimOrder: n ready tasks (n = 3, 4) whose ids are in every possible order relative to their creation order
+// (ids are random in real use, so any arrangement occurs): repeated claim must hand them out oldest first; with equal
+// creation times the documented tie-break (id) decides. Also per epic (claim --epic) with the tasks spread over two epics.
+func c08ClaimOrder(env *core.Env) map[string]interface{} {
+	type job struct {
+		perm  []int
+		equal bool // all created at the same instant
+		epics bool // odd tasks in E1, even tasks in E2; claim --epic E1
+	}
+	var jobs []job
+	for _, n := range []int{3, 4} {
+		for _, p := range permutations(n) {
+			for _, eq := range []bool{false, true} {
+				jobs = append(jobs, job{p, eq, false})
+			}
+			jobs = append(jobs, job{p, false, true})
+		}
+	}
+	var claims int64
+	env.Parallel(len(jobs), func(w *core.Worker, i int) {
+		j := jobs[i]
+		n := len(j.perm)
+		var sorted []string
+		for k := 0; k < n; k++ {
+			sorted = append(sorted, core.IDFor(int64(5000+k)))
+		}
+		sort.Strings(sorted)
+		l := newSynLog()
+		e1, e2 := core.IDFor(5100), core.IDFor(5101)
+		l.Create(SynItem{ID: e1, Epic: true, Title: "E1"})
+		l.Create(SynItem{ID: e2, Epic: true, Title: "E2"})
+		ts := l.tick()
+		var want []string // expected hand-out order
+		ids := make([]string, n)
+		for k := 0; k < n; k++ { // k = creation order; the k-th created task gets the perm[k]-th smallest id
+			ids[k] = sorted[j.perm[k]]
+			in := ""
+			if j.epics {
+				in = e2
+				if k%2 == 1 {
+					in = e1
+				}
+			}
+			if !j.equal {
+				ts = l.tick()
+			}
+			l.ev("new_task", ts, map[string]interface{}{"id": ids[k], "uuid": "u-" + ids[k], "epic_id": in, "state": "todo", "title": fmt.Sprintf("created #%d", k), "body": "", "created_at": ts})
+			if !j.epics || k%2 == 1 {
+				want = append(want, ids[k])
+			}
+		}
+		if j.equal {
+			sort.Strings(want) // same instant: by id
+		}
+		st := core.Store{".ergo/plans.jsonl": l.Bytes(), ".ergo/lock": nil}
+		st.Materialize(w.Proj)
+		args := []string{"--json", "claim", "--agent", "z"}
+		if j.epics {
+			args = append(args, "--epic", e1)
+		}
+		var got []string
+		var steps []core.Req
+		for k := 0; k <= len(want); k++ {
+			res := w.Run(core.R(w.Proj, args...))
+			steps = append(steps, core.R("", args...))
+			atomic.AddInt64(&claims, 1)
+			var rep struct{ ID, Status string }
+			json.Unmarshal(res.Out, &rep)
+			if res.Exit != 0 || rep.Status == "no_ready" {
+				break
+			}
+			got = append(got, rep.ID)
+		}
+		if strings.Join(got, ",") != strings.Join(want, ",") {
+			desc := fmt.Sprintf("%d ready tasks, id rank by creation order %v, equal creation times=%v, per-epic=%v", n, j.perm, j.equal, j.epics)
+			first := 0
+			for first < len(got) && first < len(want) && got[first] == want[first] {
+				first++
+			}
+			wantID := "no_ready"
+			if first < len(want) {
+				wantID = `"id":"` + want[first] + `"`
+			}
+			report(env, fmt.Sprintf("C08 kind=claim-order-depends-on-id-order equal-times=%v per-epic=%v", j.equal, j.epics), fmt.Sprintf("%s: repeated claim hands out %v, oldest-first is %v", desc, got, want),
+				mkTrace(st, desc, steps[:first+1], Assert{Kind: "out_lacks", Step: first + 1, Text: wantID}))
+		}
+	})
+	return map[string]interface{}{"stores": len(jobs), "claims": claims,
+		"rule": "3 and 4 ready tasks x every permutation of id rank vs creation order x {distinct creation times, one instant (tie-break by id), spread over two epics with claim --epic}; repeated claim until no_ready must hand out exactly the expected sequence"}
 }
